@@ -155,7 +155,7 @@ def parse_vc(path, into=None, features=()):
                 # the name may contain spaces (`<M as Trait>::f`); options are the trailing known tokens
                 rest = parts[2:]
                 opts = []
-                while rest and re.match(r'^(stub|R4|noreach|spinoff|pin=\S+|rlimit=\d+|verified-in=\w+|shim=\S+|shape=\w+)$', rest[-1]):
+                while rest and re.match(r'^(stub|R4|R11|noreach|spinoff|pin=\S+|rlimit=\d+|verified-in=\w+|shim=\S+|shape=\w+)$', rest[-1]):
                     opts.insert(0, rest.pop())
                 cur = FnContract(parts[1], ' '.join(rest), opts, origin)
                 if cur.key in vc.fns:
